@@ -109,6 +109,7 @@ type entryReport struct {
 	HashApps     int               `json:"hash_applications"`
 	Candidates   []string          `json:"violation_candidates,omitempty"`
 	Validated    int               `json:"vectors_validated_natively"`
+	CrossCheck   map[string]string `json:"solver_cross_check,omitempty"`
 	TwinOK       *bool             `json:"twin_violated,omitempty"`
 }
 
@@ -553,6 +554,49 @@ func cmdCheck(args []string) {
 				} else {
 					validated++
 					rep.Validated++
+				}
+			}
+		}
+
+		// thorough tier: the same entry (at its quick bounds) is decided again by two other
+		// solvers; the verdicts (set of violated labels, number of assertions discharged,
+		// paths) must agree with a z3 4.8.12 run at the same bounds
+		if *tier == "thorough" && e.Tiers["quick"] != nil && os.Getenv("VERIF_NO_CROSSCHECK") == "" {
+			type verdict struct {
+				labels string
+				paths  int
+				proved int
+			}
+			runWith := func(solver string) (verdict, *Summary) {
+				xc := baseConfig()
+				if *workers > 0 {
+					xc.Workers = *workers
+				}
+				xc.Blackhole = cfg.Blackhole
+				xc.InitAllow = cfg.InitAllow
+				xc.Redirects = redirectsForEntry
+				xc.Params = e.Tiers["quick"]
+				xc.Solver = solver
+				xc.MaxPaths = 20000
+				xc.TimeBudget = 10 * time.Minute
+				xc.AfterViolation = 300
+				xs := Explore(prog, fn, xc)
+				var ls []string
+				for _, v := range xs.Violations {
+					ls = append(ls, v.Label)
+				}
+				sort.Strings(ls)
+				return verdict{strings.Join(ls, ","), xs.Paths, xs.AssertsSym}, xs
+			}
+			ref, _ := runWith("z3")
+			rep.CrossCheck = map[string]string{"z3 4.8.12": fmt.Sprintf("paths=%d solver-discharged=%d violated=[%s]", ref.paths, ref.proved, ref.labels)}
+			for _, s := range []string{"z3-new", "cvc5"} {
+				v, xs := runWith(s)
+				rep.CrossCheck[s] = fmt.Sprintf("paths=%d solver-discharged=%d violated=[%s] unknown=%d", v.paths, v.proved, v.labels, xs.QUnknown)
+				if v != ref && xs.QUnknown == 0 && len(xs.Inconclusive) == 0 {
+					msg := fmt.Sprintf("%s: solver disagreement: z3 %+v vs %s %+v", e.Fn, ref, s, v)
+					fmt.Println("INCONCLUSIVE:", msg)
+					evidenceInconclusive = append(evidenceInconclusive, msg)
 				}
 			}
 		}
